@@ -81,7 +81,9 @@ def ops_section(struct, params_args, text=True, copy=True):
     if text:
         lines.append("          std::string t1 = ::emboss::WriteToString(view, ::emboss::TextOutputOptions().WithAllowPartialOutput(true));")
         lines.append("          std::string t2 = ::emboss::WriteToString(view, ::emboss::MultilineText().WithAllowPartialOutput(true).WithComments(true).WithDigitGrouping(true).WithNumericBase(16));")
-        lines.append("          (void)::emboss::UpdateFromText(wv, t1); (void)::emboss::UpdateFromText(wv, t2);")
+        lines.append("          std::string t4 = ::emboss::WriteToString(view, ::emboss::TextOutputOptions().WithAllowPartialOutput(true).WithDigitGrouping(true).WithNumericBase(2));")
+        lines.append("          std::string t5 = ::emboss::WriteToString(view, ::emboss::MultilineText().WithAllowPartialOutput(true).WithDigitGrouping(true).WithNumericBase(10));")
+        lines.append("          (void)::emboss::UpdateFromText(wv, t1); (void)::emboss::UpdateFromText(wv, t2); (void)::emboss::UpdateFromText(wv, t4); (void)::emboss::UpdateFromText(wv, t5);")
         lines.append("          if (view.Ok()) { std::string t3 = ::emboss::WriteToString(view); (void)::emboss::UpdateFromText(wv, t3); }")
         lines.append("          for (unsigned mi = 0; mi < sizeof(MALFORMED) / sizeof(MALFORMED[0]); ++mi) (void)::emboss::UpdateFromText(wv, std::string(MALFORMED[mi]));")
     if copy:
